@@ -63,9 +63,11 @@ Definition tour_new (l : list node_id) : res tour :=
   | [] => Panic
   | _ => if valid_tour_nodes l then Ok (new_computing l false) else Err
   end.
+(* Tour::new_dummy: depots are dropped; maintenance nodes stay (since the repair "fix: dummy tours keep the
+   maintenance nodes of their path"), so that the dummy tour remains a path in the network *)
 Definition tour_new_dummy (path : list node_id) : res tour :=
-  let l := filter node_is_service path in
-  match l with [] => Err | _ => Ok (new_computing l true) end.
+  let l := filter (fun n => negb (node_is_depot n)) path in
+  if existsb node_is_service l then Ok (new_computing l true) else Err.
 
 (** ** queries *)
 Definition nth_node (t : tour) (p : nat) : node_id := nth p (t_nodes t) (SD 0).
